@@ -292,10 +292,13 @@ def long_keys(ci: int, n: int, allow_unicode: bool, flow_i: int, style_i: int) -
 def encodings(k: int, enc_i: int, allow_unicode: bool) -> str:
     """no stream given: bytes in the requested encoding (UTF-16 with BOM) or str when none was requested"""
     v = pick(k, TABLE)
-    enc = pick(enc_i, [None, 'utf-8', 'utf-16-le', 'utf-16-be', 'utf-16'])
+    enc = pick(enc_i, [None, 'utf-8', 'utf-16-le', 'utf-16-be', 'utf-16', 'UTF-16-LE', 'utf_16_be', 'UTF-8'])
+    spelled = enc
+    if enc is not None and enc_i >= 5:
+        enc = enc.lower().replace('_', '-')      # other spellings of the same codecs
     try:
         ref = yaml.safe_dump(v, allow_unicode=allow_unicode)
-        got = yaml.safe_dump(v, allow_unicode=allow_unicode, encoding=enc)
+        got = yaml.safe_dump(v, allow_unicode=allow_unicode, encoding=spelled)
     except Exception as e:
         return fail(P, exc_sig(e), k=k)
     reach()
@@ -312,7 +315,7 @@ def encodings(k: int, enc_i: int, allow_unicode: bool) -> str:
     elif enc.startswith('utf-16'):
         bom = b'\xff\xfe' if enc == 'utf-16-le' else b'\xfe\xff'
         if not got.startswith(bom):
-            return fail(P, 'ENCODING no BOM in UTF-16 output', k=k)
+            return fail(P, 'ENCODING no BOM in UTF-16 output', k=k, enc_i=enc_i)
         if got[2:].decode(enc) != ref:
             return fail(P, 'ENCODING UTF-16 output does not decode to the str result', k=k)
     elif got.decode('utf-8') != ref:
@@ -391,8 +394,8 @@ def jobs(tier):
                   budget=250, bounds='2 documents of 6 root kinds x explicit_start x explicit_end x version x tags x canonical'))
     js.append(Job('long-keys', long_keys, [lambda ci, n, allow_unicode, flow_i, style_i: 0 <= ci <= 5 and 0 <= n <= 6 and 0 <= flow_i <= 1 and 0 <= style_i <= 2],
                   budget=250, bounds='mapping keys of 6 character kinds x length in {100,127,128,129,260,300,1100} x allow_unicode x block/flow x 3 styles'))
-    js.append(Job('encodings', encodings, [lambda k, enc_i, allow_unicode: 0 <= k < len(TABLE) and 0 <= enc_i <= 4], budget=120,
-                  bounds='%d values x encoding in {None, utf-8, utf-16-le, utf-16-be, utf-16} x allow_unicode' % len(TABLE)))
+    js.append(Job('encodings', encodings, [lambda k, enc_i, allow_unicode: 0 <= k < len(TABLE) and 0 <= enc_i <= 7], budget=150,
+                  bounds='%d values x encoding in {None, utf-8, utf-16-le, utf-16-be, utf-16, and the spellings UTF-16-LE, utf_16_be, UTF-8} x allow_unicode' % len(TABLE)))
     js.append(Job('canonical', canonical, [lambda k, allow_unicode, narrow: 0 <= k < len(TABLE) + 6], budget=250,
                   bounds='%d values in canonical form x allow_unicode x width {5,80}, against tests/legacy_tests/canonical.py' % (len(TABLE) + 6)))
     return js
